@@ -400,6 +400,11 @@ def _check_convert(case):
     live = variables_of(src)
     if any(l not in mapping for l in live):
         return Fail("model labels missing from mapping %r" % (mapping,), key="label-missing-in-mapping")
+    if case.get("how", "ctor") in ("ctor", "cleared") and not case.get("dead") and set(mapping) != set(M.variables):
+        # built by the constructor, or clear()ed and refilled: nothing was cancelled, so the enumeration that
+        # convert_solution undoes is the enumeration of exactly the model's variables
+        return Fail("mapping %r enumerates labels that are not variables %r of a model built without cancellations"
+                    % (mapping, sorted(M.variables, key=repr)), key="mapping-not-variables" + (":" + why if why else ""))
     forms = {False: dict(M.to_pubo()), True: dict(M.to_puso())}      # the enumerated model in boolean / spin form
     for sspin in (False, True):
         F = forms[sspin]
